@@ -201,4 +201,41 @@ var propSpecs = []propSpec{
 		outside: "panics raised by the RecoverFunc itself or by matchers; routers added to a group with Group.Add; the other bundled recovery options (they differ only in logging, which is stubbed)",
 		stubs:   append(append([]string{}, stdStubs...), "net/http.Error: its documented effect on the writer; logging and stack dumps: empty bodies"),
 	},
+	{
+		id: "C18",
+		runs: []runSpec{
+			{dir: "mux", entry: "ZZC18", quick: append(seq(50, []int{0, 1, 2, 3, 4, 5, 6, 7}, 6), seq(0, []int{0, 1, 2, 3, 4, 5, 6, 7}, 6)...), thorough: append(seq(50, []int{0, 1, 2, 3, 4, 5, 6, 7}, 9), seq(0, []int{0, 1, 2, 3, 4, 5, 6, 7}, 9)...)},
+			{dir: "trace", entry: "ZZC18Helper", quick: []int{0, 1}, thorough: []int{0, 1}},
+		},
+		covers:  []string{"trace-configured", "trace-not-configured", "dump-ok", "dump-error"},
+		bounds:  "TRACE request with every path of <= 6 bytes on the 8 table histories of C01 between two Use calls, with WithTrace (configured handler, exactly the Use middlewares with arguments TRACE/\"\"/router, no parameters, manual registration refused, TRACE in every Allow set incl. OPTIONS *) and without (404/405 per the documented resolution, TRACE registrable and then served); helper: httputil.DumpRequest nondeterministic (arbitrary error, or arbitrary dump of <= 3 bytes incl. HTML metacharacters), status 200, Content-Type read from the header snapshot taken at WriteHeader, body = html.EscapeString(dump), error passthrough, with and without body",
+		boundsT: "paths <= 9 bytes",
+		outside: "the content of real request dumps (httputil.DumpRequest is stubbed; natively it is the real function)",
+		stubs:   append(append([]string{}, stdStubs...), "net/http/httputil.DumpRequest: arbitrary error or arbitrary <= 3 bytes, deterministic per request; html.EscapeString: byte-wise model of the five replacements"),
+	},
+	{
+		id: "C19",
+		runs: []runSpec{
+			{dir: "mux", entry: "ZZC19", quick: []int{13, 23}, thorough: []int{13, 24, 34}},
+		},
+		covers:  []string{"program", "facade-route-reached"},
+		bounds:  "every program of <= 2 facade calls from 10 (Prefix with middlewares, empty Prefix, a Prefix ending inside a {..} token, nested Prefix.Prefix + Any, Resource Get/Delete, Prefix.Resource Put, Prefix.Resource.Remove, Prefix.Clean, Resource.Clean, nested Prefix.Remove with a method list) run through the facades on one router and desugared into plain Router calls on a second one; compared: Routes(), the table model, the same symbolic request (path <= 3 bytes x 6 methods: handler, pattern, parameters, middleware chain, status, Allow), Prefix.URL / Resource.URL / nested Prefix.URL vs Router.URL in both modes with a symbolic value",
+		boundsT: "programs of <= 3 calls, probe paths <= 4 bytes",
+		outside: "longer programs; other prefixes",
+		stubs:   stdStubs,
+	},
+	{
+		id: "C20",
+		runs: []runSpec{
+			{dir: "types", entry: "ZZC20", quick: []int{12, 22, 32}, thorough: []int{13, 23, 33, 42}},
+			{dir: "types", entry: "ZZC20Conv", quick: []int{4}, thorough: []int{6}},
+			{dir: "types", entry: "ZZC20Float", quick: []int{0}, thorough: []int{0}},
+		},
+		covers:  []string{"sequence", "pool-reuse", "absent-key", "present-key", "conversion", "int-ok", "bool-ok", "float"},
+		bounds:  "every sequence of <= 3 operations from {Set, Delete, Reset, Destroy+NewContext, Params().Set} with keys from {a, b, any 1-byte string} and values of <= 2 arbitrary bytes, then Count/Get/Exists/String/MustString/Range and the typed accessors for an arbitrary probe key against a shadow association list; Int/Uint/Bool and their Must* variants against strconv executed symbolically from its own SSA on every string of <= 4 bytes plus 27 edge-case seeds (overflow boundaries, signs, underscores, hex, NaN/Inf); Float/MustFloat against strconv.ParseFloat on the 27 seeds",
+		boundsT: "sequences of <= 4 operations, conversion strings <= 6 bytes",
+		outside: "Float on arbitrary strings (strconv.ParseFloat is only run natively on concrete seeds); longer values",
+		assume:  []string{"sync.Pool returns the most recently released context (the case the 'starts empty' clause is about)"},
+		stubs:   append(append([]string{}, stdStubs...), "strconv.ParseInt/ParseUint/ParseBool: executed from their own SSA; strconv.ParseFloat: the real function on concrete strings; strconv.ErrSyntax/ErrRange: opaque distinct error values"),
+	},
 }
